@@ -740,4 +740,20 @@ theorem TokOK_nat (n : Nat) : TokOK (Nat.toDigits 10 n) (n : Rat) := by
   have := TokOK_digits _ hne hd h0
   rwa [Nat.ofDigitChars_ten_toDigits] at this
 
+/-- `int` of a whole number is that number -/
+theorem truncRat_nat (n : Nat) : truncRat (n : Rat) = n := by
+  unfold truncRat
+  have h : (n : Rat) ≥ 0 := by exact_mod_cast Nat.zero_le n
+  simp only [h, if_true]
+  have : ((n : Rat)).floor = (n : Int) := by
+    simp [Rat.floor]
+  rw [this]; simp
+
+theorem intStr_nat (n : Nat) : intStr (n : Rat) = Nat.toDigits 10 n := by
+  unfold intStr
+  have : ((n : Rat)).floor = (n : Int) := by simp [Rat.floor]
+  simp only [this]
+  have h : ¬ ((n : Int) < 0) := by omega
+  simp [h]
+
 end GBS.P
